@@ -149,12 +149,12 @@ def run(tier, seed):
             for t in itertools.product(REDUCED, repeat=n):
                 cases.append(("exhaustive<=%d" % maxlen, render(t, "g")))
         r1 = rng.fork("longer")
-        for i in range(10000 if quick else 600000):
+        for i in range(10000 if quick else 200000):
             n = r1.range(maxlen + 1, 8)
             cases.append(("sampled %d..8 tokens (reduced set)" % (maxlen + 1), render([r1.choice(REDUCED) for _ in range(n)], "g")))
         # 2. soups over the full vocabulary, all trivia styles (these re-derive finding C23-1)
         r2 = rng.fork("soup")
-        for i in range(9000 if quick else 300000):
+        for i in range(9000 if quick else 100000):
             n = r2.range(1, 40 if i % 10 else 400)
             toks = [r2.choice(VOCAB) for _ in range(n)]
             cases.append(("token soup", render(toks, "gwc"[i % 3])))
@@ -184,7 +184,10 @@ def run(tier, seed):
         meta = []
         for t in texts:
             hx = t.encode().hex()
-            full = "t" if len(t) <= 4096 else ""
+            # events/tokens/tree dump (Sink correspondence) for everything but the bulk of the thorough tier's
+            # length-5 enumeration and 5..8 sampling, which only go through the direct oracle
+            bulk = (not quick) and (seen[t].startswith("sampled") or (seen[t].startswith("exhaustive") and len(t.split()) >= 5))
+            full = "t" if (len(t) <= 4096 and not bulk) else ""
             for m in ("S", "R"):
                 lines.append("%s%s %s" % (m, full, hx))
                 meta.append((seen[t], t, m, bool(full)))
